@@ -196,6 +196,10 @@ def tree(depth):
             st.tuples(st.just("mul"), ch, ch).map(list), st.tuples(st.just("mul"), ch, ch).map(list),
             st.tuples(st.just("div"), ch, ch).map(list), st.tuples(st.just("inv"), ch).map(list),
             st.tuples(st.just("pow"), ch, st.integers(-8, 8)).map(list),
+            # nested large powers: rounding accumulates coherently (X^64 is ~1e-14 off the group, still a member to 1e-9)
+            st.tuples(st.just("pow"), st.tuples(st.just("pow"), ch, st.sampled_from([-8, -7, 7, 8])).map(list), st.sampled_from([-8, -5, 7, 8])).map(list),
+            st.tuples(st.just("pow"), st.tuples(st.just("pow"), st.tuples(st.just("pow"), ch, st.sampled_from([-8, 8])).map(list), st.sampled_from([-8, 8])).map(list),
+                      st.sampled_from([-8, 6, 8])).map(list),
             st.tuples(st.just("interp"), ch, gens.fl(0, 1)).map(list),
             st.tuples(st.just("norm"), ch).map(list),
             st.tuples(st.just("prod"), ch, ch, ch).map(list))
